@@ -65,6 +65,14 @@ let handle (line : string) : string =
         | [t; "N"; nm; ty; cl; v; ttl] ->
           (n_of_int (int_of_string t), CPutNeg (bytes_of_hex nm, n_of_int (int_of_string ty), n_of_int (int_of_string cl),
                                                  n_of_int (int_of_string v), n_of_int (int_of_string ttl)))
+        | [t; "A"; nm; ty; cl; v; soas; auth] ->
+          (* putNegative without an explicit TTL: the model's calculateNegativeTtl *)
+          let sl = if soas = "-" then [] else List.map (fun x -> match split_on '/' x with
+              | [a; b] -> (n_of_int (int_of_string a), n_of_int (int_of_string b)) | _ -> failwith "soa") (split_on ',' soas) in
+          let al = if auth = "-" then [] else List.map (fun x ->
+              (x.[0] = 'S', n_of_int (int_of_string (String.sub x 1 (String.length x - 1))))) (split_on ',' auth) in
+          (n_of_int (int_of_string t), CPutNeg (bytes_of_hex nm, n_of_int (int_of_string ty), n_of_int (int_of_string cl),
+                                                 n_of_int (int_of_string v), neg_ttl dflt sl al))
         | [t; "G"; nm; ty; cl] ->
           (n_of_int (int_of_string t), CGet (bytes_of_hex nm, n_of_int (int_of_string ty), n_of_int (int_of_string cl)))
         | [t; "R"; nm; ty; cl] ->
